@@ -205,7 +205,7 @@ def prepare_harness():
     """Mirror /verif/harness into a build dir with go.mod derived from REPO/go.mod."""
     bd = harness_dir()
     os.makedirs(bd, exist_ok=True)
-    subprocess.run(["rsync", "-a", "--delete", "--exclude", "go.mod", "--exclude", "go.sum", "--exclude", "bin/",
+    subprocess.run(["rsync", "-a", "--delete", "--exclude", "go.mod", "--exclude", "go.sum", "--exclude", "bin/", "--exclude", "bin-cover/",
                     os.path.join(VERIF, "harness") + "/", bd + "/"], check=True)
     gm = open(os.path.join(REPO, "go.mod")).read()
     gm = re.sub(r"^module .*$", "module verif", gm, count=1, flags=re.M)
@@ -230,10 +230,12 @@ def go_env():
 def go_build(cmd, tags="verif", timeout=1500):
     """Build harness/cmd/<cmd> against the current REPO tree. Returns binary path."""
     bd = prepare_harness()
-    out = os.path.join(bd, "bin", cmd)
+    cover = bool(os.environ.get("VERIF_COVER"))   # bin/coveraudit: statement coverage of mosn under a check's drivers
+    out = os.path.join(bd, "bin-cover" if cover else "bin", cmd)
     os.makedirs(os.path.dirname(out), exist_ok=True)
     t0 = time.time()
-    p = subprocess.run(["timeout", str(timeout), "go", "build", "-tags", tags, "-o", out, "./cmd/" + cmd],
+    extra = ["-cover", "-coverpkg=mosn.io/mosn/pkg/...,./cmd/" + cmd] if cover else []   # main must be instrumented too or nothing is written
+    p = subprocess.run(["timeout", str(timeout), "go", "build"] + extra + ["-tags", tags, "-o", out, "./cmd/" + cmd],
                        cwd=bd, env=go_env(), capture_output=True, text=True)
     if p.returncode != 0:
         raise Inconclusive("go build of harness cmd %s failed:\n%s" % (cmd, (p.stdout + p.stderr)[-4000:]))
@@ -327,8 +329,9 @@ def finish(ctx, level="model_checking"):
               known_findings=[k["signature"] for k in ctx.known_hits], notes=ctx.notes)
     if not cov["samples"]:
         cov["samples"] = ["(none)"]
-    os.makedirs(os.path.join(VERIF, "evidence"), exist_ok=True)
-    with open(os.path.join(VERIF, "evidence", ctx.pid + ".json"), "w") as fh:
+    evdir = os.environ.get("VERIF_EVIDENCE_DIR") or os.path.join(VERIF, "evidence")   # audits write elsewhere
+    os.makedirs(evdir, exist_ok=True)
+    with open(os.path.join(evdir, ctx.pid + ".json"), "w") as fh:
         json.dump(ev, fh, indent=1, sort_keys=True, default=str)
     for k in ctx.known_hits:
         log("KNOWN-FINDING: property=%s %s -- %s" % (ctx.pid, k["signature"], k["summary"]))
